@@ -251,6 +251,8 @@ def monitor(case, out):
                           f"`{' '.join(cur_op)}` was refused/failed but the kernel interest list changed: [{last_ki}] -> [{ki}]")
             last_ki = ki; op_failed = False
             continue
+        if w[0] == "#baddata":
+            raise Bad("interest-data-mismatch", f"kernel entry of fd {w[1]} carries epoll_event.data {w[2]} instead of the descriptor number")
         if w[0] == "refused": op_failed = True
         if l.startswith("#"): continue
         if w[0] == "op":
@@ -436,7 +438,9 @@ def model_input(case, iout):
 def check_case(ctx, exe, case):
     rc, il, err = run_impl(ctx, exe, case)
     if rc != 0:
-        return Bad("harness-crash", f"harness exited {rc}: {err[-700:]}"), il
+        lastop = next((l for l in reversed(il) if l.startswith("op ")), "")
+        return Bad("harness-crash", f"harness exited {rc} (abort()/assert/sanitizer inside libuv) after `{lastop}`, "
+                   f"{sum(1 for l in il if l.startswith('op '))} ops into the program: {err[-500:]}"), il
     try:
         return monitor(case, il), il
     except Bad as b:
@@ -447,8 +451,13 @@ def check_case(ctx, exe, case):
 
 def shrink(ctx, exe, case, sig):
     cur = list(case)
+    # never shrink away the preamble that makes scripted batches legal (the first handle started on fd 100 sizes
+    # loop->watchers; without it a scripted event for fd >= nwatchers trips libuv's own assert on any tree)
+    keep = {l for l in cur[:40] if l.startswith("cfg") or l.startswith("openfd 100 ") or l == "pinit 100" or l.startswith("pstart 0 ")}
     i = 1
     while i < len(cur):
+        if cur[i] in keep and cur.index(cur[i]) == i:
+            i += 1; continue
         cand = cur[:i] + cur[i + 1:]
         r, _ = check_case(ctx, exe, cand)
         if isinstance(r, Bad) and r.sig == sig: cur = cand
@@ -503,6 +512,42 @@ def run_cases(ctx, exe, cases, label):
     return True
 
 
+def gen_long_ring_case(rng, ring=1, target_ops=None):
+    """long op history on one loop: hundreds of batched epoll_ctl submissions (past 256, 512, 768 ...) with
+    stop-without-DEL + restart (ADD answered EEXIST, retried as MOD at flush time), partial stops (MOD) and
+    poll restarts (DEL + ADD) interleaved so that the retries fall at every position of the 256-slot
+    submission ring and the 512-slot completion ring"""
+    W = rng.range(5, 12)
+    target = target_ops or rng.choice([300, 420, 560, 700, 900, 1100])
+    c = [f"cfg ring={ring}"]
+    kinds = []
+    for k in range(W):
+        f = 100 + k
+        c.append(f"openfd {f} {rng.choice([0, 1, 3])}")
+        if rng.below(5) == 0:
+            kinds.append("p"); c += [f"pinit {f}", f"pstart {k} {rng.choice([1, 2, 3, 5])}"]
+        else:
+            kinds.append("r"); c += [f"ioinit {f}", f"iostart {k} {rng.choice(IOMASKS)}"]
+    c.append("run S")
+    ops = W
+    while ops < target:
+        n = rng.range(1, W)
+        for _ in range(n):
+            k = rng.below(W)
+            r = rng.below(10)
+            if kinds[k] == "p":
+                c.append(f"pstart {k} {rng.choice([1, 2, 3, 5, 7])}"); ops += 1
+            elif r < 7:
+                c += [f"iostop {k} {ALL4}", f"iostart {k} {rng.choice(IOMASKS)}"]; ops += 2      # ADD -> EEXIST -> MOD
+            elif r < 9:
+                c += [f"iostart {k} {rng.choice(IOMASKS)}", f"iostop {k} {rng.choice([1, 4, 2])}"]; ops += 1   # MOD (or nothing)
+            else:
+                c += [f"iostop {k} {ALL4}"]                                                        # lingering entry, disarmed on its event
+        c.append("run S" if rng.below(4) else f"run S {100 + rng.below(W)}:{rng.choice([1, 4, 5])}")
+    c.append("run S")
+    return c
+
+
 def many_fds_case(ring, n=270):
     """more than 256 queued watchers: the ctl ring fills and is flushed inside uv__epoll_ctl_prep"""
     c = [f"cfg ring={ring}", "on 0 0 pclose 5 ; pstop 7"]
@@ -532,6 +577,8 @@ def run(ctx):
     cdir = VERIF / "corpus" / "C14"
     ccases = [[l for l in p.read_text().splitlines() if l.strip()] for p in sorted(cdir.glob("*.txt"))] if cdir.exists() else []
     ccases += [many_fds_case(1), many_fds_case(0)] if not ctx.quick else [many_fds_case(1, 262)]
+    lrng = rng.fork()
+    lcases = [gen_long_ring_case(lrng, 1) for _ in range(ctx.scale(5, 60))] + [gen_long_ring_case(lrng, 0, 300)]
     good = run_cases(ctx, exe, ccases, "corpus")
     # suspected defects found while building this check (model agrees with the code; the discipline switch
     # multi=1 is needed to reach them).  They are replayed only when known_findings.txt lists their signature.
@@ -551,6 +598,14 @@ def run(ctx):
         if done == 0: ctx.sample({"program": cases[0]})
         good = run_cases(ctx, exe, cases, "random")
         done += len(cases)
+    if good and not ctx.violations and not ctx.broken:
+        # long op histories through the ctl ring; also on an unsanitised build, so that an out-of-bounds read in the
+        # ring bookkeeping shows up as what it does to the kernel's interest list / as libuv's own abort()
+        pexe = ctx.harness("c14_sim_plain", ["harness/c14_sim.c"], variant="plain", link_lib=True)
+        good = run_cases(ctx, exe, lcases, "long ring history")
+        if good and pexe is not None:
+            run_cases(ctx, pexe, lcases, "long ring history, plain build")
+        ctx.notes["long_ring_histories"] = f"{len(lcases)} programs, 300-1100 batched epoll_ctl submissions each, EEXIST retries throughout"
     if ctx.broken and not ctx.violations:
         ctx.log("obligation broken; searching for a failing input with the monitors")
         srng = SplitMix(ctx.seed + 1414)
